@@ -8,7 +8,7 @@ EXPLANATION = (
     "of the call run; terminal: all elements processed once, raising elements skipped."
 )
 ASSUMPTIONS = ["bounds: iterable length <= 4, num_concurrent <= 3, <= 2 requests, sizes {1,2,inf}"]
-BUDGET = {"quick": 150, "thorough": 2400}
+BUDGET = {"quick": 150, "thorough": 900}
 MON = ["C05"]
 
 
